@@ -5,6 +5,7 @@ import (
 	"fmt"
 	"math"
 	"math/big"
+	"strings"
 
 	"github.com/tuneinsight/lattigo/v6/core/rlwe"
 	"github.com/tuneinsight/lattigo/v6/ring"
@@ -559,8 +560,11 @@ func (p c17) step(ctx *core.RunCtx, r *ring.Ring, d c17Dist, A, B *c17Side, st c
 		catalog.FillPoly(rl, pa, g)
 		catalog.FillPoly(rl, pb, core.NewXoshiro(uint64(s)+991))
 	case 2:
-		pa = rl.NewPoly()
-		catalog.FillPoly(rl, pa, core.NewXoshiro(uint64(s)*31+5))
+		var small bool
+		pa, small = c17AddReceiver(rl, d, s)
+		if small {
+			ctx.Count("probe.read-and-add-onto-small-values", 1)
+		}
 		pb = *pa.CopyNew()
 		before = *pa.CopyNew()
 	}
@@ -600,9 +604,9 @@ func (p c17) step(ctx *core.RunCtx, r *ring.Ring, d c17Dist, A, B *c17Side, st c
 			q := rl.SubRings[i].Modulus
 			for j := range sample.Coeffs[i] {
 				a, b := pa.Coeffs[i][j], before.Coeffs[i][j]
-				if a > q {
-					// q itself is tolerated as a lazy representative of 0
-					ctx.Fail("contract", d.kindName()+"|ReadAndAdd|unreduced", "ReadAndAdd left coefficient %d > q_%d=%d", a, i, q)
+				if a > q || a == q && strings.HasPrefix(d.kindName(), "ternary") {
+					// (for the Gaussian sampler q itself is tolerated as a lazy representative of 0, section 14)
+					ctx.Fail("contract", d.kindName()+"|ReadAndAdd|unreduced", "ReadAndAdd left coefficient %d, not below q_%d=%d", a, i, q)
 					return nil, false
 				}
 				sample.Coeffs[i][j] = (a%q + q - b) % q
@@ -636,11 +640,36 @@ func (p c17) replayStep(ctx *core.RunCtx, r *ring.Ring, d c17Dist, A *c17Side, s
 	case 1:
 		pa = A.views[st.view].ReadNew()
 	case 2:
-		pa = rl.NewPoly()
-		catalog.FillPoly(rl, pa, core.NewXoshiro(uint64(s)*31+5))
+		pa, _ = c17AddReceiver(rl, d, s)
 		A.views[st.view].ReadAndAdd(pa)
 	}
 	return polyBytes(pa)
+}
+
+// c17AddReceiver: what step s adds onto (a function of s: the replayed pass builds the same): uniform residues, or
+// a small polynomial (what a sampler of the same kind leaves), so that sums that meet the modulus exactly occur.
+func c17AddReceiver(rl *ring.Ring, d c17Dist, s int) (pa ring.Poly, small bool) {
+	pa = rl.NewPoly()
+	gg := core.NewXoshiro(uint64(s)*31 + 5)
+	if gg.Next()%2 == 0 {
+		catalog.FillPoly(rl, pa, gg)
+		return pa, false
+	}
+	for j := 0; j < rl.N(); j++ {
+		v := int64(gg.Next()%5) - 2
+		for i := range pa.Coeffs {
+			q := rl.SubRings[i].Modulus
+			if v >= 0 {
+				pa.Coeffs[i][j] = uint64(v) % q
+			} else {
+				pa.Coeffs[i][j] = q - uint64(-v)%q
+			}
+		}
+	}
+	if d.mont {
+		rl.MForm(pa, pa)
+	}
+	return pa, true
 }
 
 // support checks the declared support and cross-modulus consistency of one sample.
